@@ -35,7 +35,7 @@ CHECKS = {
  "C15": ("twin runs related by symbolic unit changes s, c > 0: the cloud and targets handed to the membership oracle scale by exactly c (verdicts equal by the contract with the same "
          "weights), s*(fit in new units) is an optimum of the original problem and predictions scale by c; range / spaced-solution twins on the concrete catalogue for an (s,c) grid "
          "spanning 1e-4..1e4: ends and spaced solutions scale by exactly 1/s on every path (integer-typed bounds: run of the real code on sampled inputs)", "4 C15"),
- "C19": ("real equalize_domains / estimator.capture(domain=) on symbolic monotone domains and arrays with an interp1d contract stub: common grid = [max of minima, min of maxima], "
+ "C19": ("real equalize_domains / estimator.capture(domain=) on symbolic monotone domains (plus concrete integer-typed and concrete unsorted zig-zag domains) and symbolic arrays with an interp1d contract stub: common grid = [max of minima, min of maxima], "
          "uniform, point count = round(overlap / coarsest mean step)+1, each array interpolated from its own domain along its own axis (compared with the harness's own "
          "interpolation), identical domains untouched, rejection only without sufficient overlap, stack/concatenate, capture on the common grid", "4 C19"),
  "C17": ("real proj_B_to_hull with a quadprog contract stub (result in hull, nearest by an explicit competitor instance, interior points fixed), alpha_for_B_with_P / B_with_P on symbolic "
